@@ -254,3 +254,71 @@ extern "C" void harness_nsw_kernels() {
   (void)GetBounds(tri);
   verif_reach();
 }
+
+// ---- C02: mechanisms that make rectilinear input exact ----------------------------------------------------------
+static const int64_t M61 = (int64_t)1 << 61;
+static inline int64_t c61() { return nd_range(-M61, M61); }
+// C02.a: no rounding can occur on axis-parallel edges: TopX of a vertical edge is its x at every y; its dx is exactly 0; a
+// horizontal edge gets -/+DBL_MAX by direction
+extern "C" void harness_rectilinear_kernels() {
+  Active e; int64_t x = c61(), y0 = c61(), y1 = c61(); ASSUME(y0 != y1);
+  e.bot = Point64(x, y0); e.top = Point64(x, y1);
+  SetDx(e);
+  VA(e.dx == 0.0);
+  int64_t y = c61();
+  VA(TopX(e, y) == x);
+  VA(!IsHorizontal(e));
+  Active h; int64_t xa = c61(), xb = c61(), yy = c61(); ASSUME(xa != xb);
+  h.bot = Point64(xa, yy); h.top = Point64(xb, yy);
+  SetDx(h);
+  VA(IsHorizontal(h));
+  VA(xb > xa ? IsHeadingRightHorz(h) && !IsHeadingLeftHorz(h) : IsHeadingLeftHorz(h) && !IsHeadingRightHorz(h));
+  h.curr_x = xa;
+  VA(TopX(h, yy) == xb);     // at its own y a horizontal edge reports its top x
+  verif_reach();
+}
+
+// C02.b: TrimHorz walks to the end of the horizontal run in travel direction (stopping at a reversal iff preserve_collinear,
+// always at a local maximum) and re-sets dx; ResetHorzDirection orders the extent
+#ifndef HN
+#define HN 4
+#endif
+extern "C" void harness_trimhorz() {
+  // vertex ring v[0..HN-1]; the edge under test runs v[0] -> v[1] (horizontal), v[1..] continue horizontally or not
+  Vertex v[HN + 1];
+  int64_t y = c61();
+  for (int i = 0; i <= HN; ++i) { v[i].pt = Point64(c61(), (i <= 1 || nondet_bool()) ? y : c61()); v[i].flags = nondet_bool() ? VertexFlags::LocalMax : VertexFlags::Empty; }
+  for (int i = 0; i <= HN; ++i) { v[i].next = &v[(i + 1) % (HN + 1)]; v[i].prev = &v[(i + HN) % (HN + 1)]; }
+  ASSUME(v[0].pt.x != v[1].pt.x);
+  ASSUME(v[HN].pt.y != y);                     // the run ends inside the ring
+  LocalMinima lm(&v[0], PathType::Subject, false);
+  Active e; e.bot = v[0].pt; e.top = v[1].pt; e.vertex_top = &v[1]; e.wind_dx = 1; e.local_min = &lm; e.curr_x = e.bot.x;
+  SetDx(e);
+  bool pres = nondet_bool();
+  TrimHorz(e, pres);
+  // specification: extend while the next vertex is on the same y, the current top is not a local maximum, and (if preserving
+  // collinear) the next vertex continues in the travel direction seen from the current top
+  int k = 1;
+  for (int step = 0; step < HN; ++step) {
+    if (k >= HN) break;
+    const Point64& nx = v[k + 1].pt;
+    if (nx.y != y) break;
+    if (pres && ((nx.x < v[k].pt.x) != (v[0].pt.x < v[k].pt.x))) break;
+    bool was_max_before_move = false;
+    k = k + 1;
+    if ((v[k].flags & VertexFlags::LocalMax) != VertexFlags::Empty) break;
+  }
+  VA(e.vertex_top == &v[k]); VA(e.top == v[k].pt); VA(e.bot == v[0].pt);
+  if (e.top.x != e.bot.x) VA(e.top.x > e.bot.x ? IsHeadingRightHorz(e) : IsHeadingLeftHorz(e));
+  verif_reach();
+}
+extern "C" void harness_resethorz() {
+  ClipperBase& c = *new Clipper64();
+  Active h; int64_t y = c61(); h.bot = Point64(c61(), y); h.top = Point64(c61(), y); h.curr_x = c61();
+  int64_t l, r;
+  bool ltr = c.ResetHorzDirection(h, nullptr, l, r);
+  VA(l <= r);
+  if (h.bot.x != h.top.x) { VA(ltr == (h.curr_x < h.top.x)); VA((l == h.curr_x && r == h.top.x) || (l == h.top.x && r == h.curr_x)); }
+  else { VA(l == h.curr_x && r == h.curr_x); VA(!ltr); }   // no maxima pair in an empty AEL
+  verif_reach();
+}
